@@ -261,3 +261,5 @@ SELFTEST = [
     {"name": "guard-as-match", "kind": "benign", "edits": [("dropshot/src/router.rs", "                if find_handler_matching_version(handlers, version).is_some() {\n                    err.add_header(http::header::ALLOW, allowed)\n                        .expect(\"method should be a valid allow header\");\n                }",
                                                          "                if find_handler_matching_version(handlers, version).is_none() {\n                    continue;\n                }\n                err.add_header(http::header::ALLOW, allowed)\n                    .expect(\"method should be a valid allow header\");")], "why": "negated guard with continue"},
 ]
+
+LEVEL_TEXT += " Also (R5): add_header appends and HttpError::into_response moves the error's header map into the response as a whole, so every collected Allow value reaches the wire."
